@@ -46,6 +46,11 @@ func scenarios() []scenario {
 	return []scenario{
 		mk("disjoint", `{"targets":[{"name":"a1","command":"echo a1","outputs":["a1.txt"]}]}`,
 			"targets:\n  - name: a2\n    command: echo a2\n    dependencies:\n      - :a1\naliases:\n  - name: al\n    actual: :a1\n", "accept"),
+		// one of the two files of the package defines aliases only (a file without targets is not "nothing to merge")
+		mk("alias-only-yaml", `{"targets":[{"name":"a1","command":"echo a1","outputs":["a1.txt"]},{"name":"a2","command":"echo a2","dependencies":[":a1"]}]}`,
+			"aliases:\n  - name: al\n    actual: :a1\n", "accept"),
+		mk("alias-only-json", `{"aliases":[{"name":"al","actual":":a1"}]}`,
+			"targets:\n  - name: a1\n    command: echo a1\n  - name: a2\n    command: echo a2\n    dependencies:\n      - :a1\n", "accept"),
 		mk("duplicate-target", `{"targets":[{"name":"a1","command":"echo a1"}]}`,
 			"targets:\n  - name: a1\n    command: echo other\n  - name: a2\n    command: echo a2\n", "reject"),
 		mk("duplicate-alias", `{"targets":[{"name":"a1","command":"echo a1"}],"aliases":[{"name":"z","actual":":a1"}]}`,
